@@ -391,7 +391,19 @@ def generate(rng, tier, run):
                 if rng.random() < 0.25:
                     d = rng.choice([20, 40, 60])
                     doc = '{' * d + 'a \\mb{b}' + '}' * d
-                ops.append(['abort', ci, doc, 'interrupt', rng.randint(1, 70 * len(doc) + 60)])
+                if rng.random() < 0.3:
+                    name = rng.choice(PARSER_NAMES)
+                    d5 = docgen.parser_doc(rng, name)
+                    if rng.random() < 0.5:
+                        inner = ['parse', 0, d5, False, ['parser', name, 0, False, True]]
+                    else:
+                        inner = ['reuse', 0, d5 + ' ' + doc, False,
+                                 [['parser', name, 0, False, True], ['general'], ['legacy', 0, gen_legacy_kw(rng)]], True, True]
+                    ops.append(['abort', ci, inner[2], 'interrupt', rng.randint(1, 40 * len(inner[2]) + 60), inner])
+                    # ... and the same pooled parser object again afterwards
+                    ops.append(['parse', ci, docgen.parser_doc(rng, name), False, ['parser', name, 0, False, True]])
+                else:
+                    ops.append(['abort', ci, doc, 'interrupt', rng.randint(1, 70 * len(doc) + 60)])
         elif x < 0.645:
             mathy = [d for d in pool if any(m in d for m in MATHY_MARKS)]
             d2 = rng.choice(mathy) if mathy and rng.random() < 0.8 else doc
@@ -943,7 +955,12 @@ def execute(program):
                                                     rec['result'].get('outer') == simparse.BUDGET):
                 stats.inc('probe:budget-exhausted')
         elif kind == 'abort':
-            _, _, doc, akind, k = op
+            _, _, doc, akind, k = op[:5]
+            # what is aborted: a plain general parse, or (6th element) a call on a pooled parser object /
+            # a sequence of calls on one walker
+            inner = op[5] if len(op) > 5 else ['parse', 0, doc, False, ['general']]
+            if len(op) > 5:
+                stats.inc('probe:abort-inside-reused-object-call')
             stats.inc('op:abort-' + akind)
             stats.inc('fault-armed:' + akind)
             fired = False
@@ -952,7 +969,7 @@ def execute(program):
                 res = None
                 try:
                     with it:
-                        res = do_op(ctx, rkind, ['parse', 0, doc, False, ['general']], clock)
+                        res = do_op(ctx, rkind, inner, clock)
                 except BaseException as e:
                     if not it.fired:
                         raise
@@ -967,9 +984,10 @@ def execute(program):
                 else:
                     # the parse ended before the k-th event: an ordinary, comparable parse
                     stats.inc('probe:interrupt-armed-but-parse-ended-first')
-                    rec['request'] = ['parse', 0, doc, False, ['general']]
+                    rec['request'] = [inner[0], 0] + list(inner[2:])
                     rec['result'] = res
                     rec['compare'] = True
+                    rec['op'] = inner[0]          # compared like the operation it turned out to be
             else:
                 res = do_op(ctx, rkind, ['parse', 0, doc, False, ['general']], clock)
                 err = res.get('error') if isinstance(res, dict) else None
